@@ -17,6 +17,7 @@ package pql
 import (
 	"bytes"
 	"fmt"
+	"math"
 	"sort"
 	"strconv"
 	"strings"
@@ -84,14 +85,28 @@ func (q *Query) endConditional() {
 	if len(q.conditional) != 5 {
 		panic(fmt.Sprintf("conditional of wrong length: %#v", q.conditional))
 	}
-	low, _ := strconv.ParseInt(q.conditional[0], 10, 64)
+	low, err := strconv.ParseInt(q.conditional[0], 10, 64)
+	if err != nil {
+		panic(fmt.Sprintf("%s: %s", intOutOfRangeError, err))
+	}
 	field := q.conditional[2]
-	high, _ := strconv.ParseInt(q.conditional[4], 10, 64)
+	high, err := strconv.ParseInt(q.conditional[4], 10, 64)
+	if err != nil {
+		panic(fmt.Sprintf("%s: %s", intOutOfRangeError, err))
+	}
 
+	// A strict bound is stored as the next integer; there is none beyond
+	// the ends of the range.
 	if q.conditional[1] == "<" {
+		if low == math.MaxInt64 {
+			panic(fmt.Sprintf("%s: nothing is greater than %d", intOutOfRangeError, low))
+		}
 		low++
 	}
 	if q.conditional[3] == "<" {
+		if high == math.MinInt64 {
+			panic(fmt.Sprintf("%s: nothing is less than %d", intOutOfRangeError, high))
+		}
 		high--
 	}
 
